@@ -27,6 +27,7 @@ CONSTANTS Dev,          \* named deviations of the code from Req that Impl repro
           OutKinds,     \* subset of {"none", "outside", "top", "sub"}: where the output directory lies
           OutSub,       \* path (relative to the input directory) of the output directory for kind "sub"/"top"
           RecChoices, AutoChoices, SepChoices,
+          LinkNames,    \* names of the sub-directories that are symbolic links (os.walk lists them, and only descends with followlinks)
           MaxWalkDepth  \* bound beyond which the walk is declared divergent
 
 VARIABLES tree0,   \* the input tree when the run starts
@@ -61,6 +62,9 @@ MatchOne(p, path, isDir) ==
   ELSE \E j \in 1..Len(path) : path[j].n \in p.comp /\ (p.dironly => (j < Len(path) \/ isDir))
 Match(pats, path, isDir) == \E p \in pats : MatchOne(p, path, isDir)
 
+IsLink(s) == s.n \in LinkNames
+HasLink(t) == \E p \in DOMAIN t : \E s \in t[p].dirs : IsLink(s)
+
 \* ---------------------------------------------------------------- Req: what is processed, over the initial tree
 HasCmake(t, pats, D) == \E f \in Dir(t, D).files : f.lc /\ ~Match(pats, Append(D, f), FALSE)
 RECURSIVE ProcDirsFrom(_, _, _)
@@ -68,6 +72,7 @@ ProcDirsFrom(t, c, D) ==
   {D} \cup (IF c.recursive
             THEN UNION {ProcDirsFrom(t, c, Append(D, s)) :
                           s \in {s \in Dir(t, D).dirs : /\ ~Match(c.pats, Append(D, s), TRUE)
+                                                        /\ (IsLink(s) => c.follow)                          \* a linked directory is processed only if links are followed
                                                         /\ ~(c.out.inside /\ Append(D, s) = c.out.path)   \* the output directory is never input
                                                         /\ (c.auto => HasCmake(t, c.pats, Append(D, s)))}}
             ELSE {})
@@ -110,8 +115,11 @@ AddFile(f, dir, name) == [f EXCEPT ![dir].files = {x \in @ : x.n # name.n} \cup 
 \* the result of visiting directory D whose listing came back as (ldirs, lfiles)
 VisitResult(f, c, D, ldirs, lfiles) ==
   LET \* the output directory inside the input tree is never input (repaired F14: pruned like an excluded directory)
+      \* symbolic links to directories are dropped from the list unless they are followed (repaired F17; before, they
+      \* stayed in the list - and in the toctree - although os.walk does not descend into them)
+      ldirsL == IF ~c.follow /\ "D_LinkedDirsListed" \notin Dev THEN SelectSeq(ldirs, LAMBDA s : ~IsLink(s)) ELSE ldirs
       ldirs0 == IF c.out.inside /\ "D_SelfFeedingWalk" \notin Dev
-                THEN SelectSeq(ldirs, LAMBDA s : Append(D, s) # c.out.path) ELSE ldirs
+                THEN SelectSeq(ldirsL, LAMBDA s : Append(D, s) # c.out.path) ELSE ldirsL
       sub1 == Prune(ldirs0, LAMBDA s : Match(c.pats, Append(D, s), TRUE))
       fil1 == Prune(lfiles, LAMBDA x : Match(c.pats, Append(D, x), FALSE))
       \* auto-exclusion of sub-directories: os.scandir, case-sensitive ".cmake", ignores the patterns
@@ -123,7 +131,8 @@ VisitResult(f, c, D, ldirs, lfiles) ==
       ssub == SortSeqNames(sub2)
       tocfiles == SelectSeq(sfiles, LAMBDA x : x.ci)
       docfiles == SelectSeq(sfiles, LAMBDA x : IF "D_BareCmakeName" \in Dev THEN x.le ELSE x.ci)
-  IN [sub |-> sub2, scanned |-> IF c.auto THEN {Append(D, sub1[j]) : j \in 1..Len(sub1)} ELSE {},
+  IN [sub |-> sub2, walk |-> SelectSeq(sub2, LAMBDA s : c.follow \/ ~IsLink(s)),     \* where os.walk goes next
+      scanned |-> IF c.auto THEN {Append(D, sub1[j]) : j \in 1..Len(sub1)} ELSE {},
       proceed |-> proceed,
       index |-> [dir |-> D, toc_dirs |-> IF c.recursive THEN Names(ssub) ELSE <<>>,
                  toc_files |-> [j \in 1..Len(tocfiles) |-> tocfiles[j].stem],
@@ -134,8 +143,9 @@ VisitResult(f, c, D, ldirs, lfiles) ==
 \* ---------------------------------------------------------------- actions
 Init ==
   /\ tree0 \in Trees
-  /\ \E pats \in PatternSets, r \in RecChoices, a \in AutoChoices, ok \in OutKinds, sep \in SepChoices :
-        cfg = [pats |-> pats, recursive |-> r, auto |-> a, sep |-> sep,
+  /\ \E pats \in PatternSets, r \in RecChoices, a \in AutoChoices, ok \in OutKinds, sep \in SepChoices,
+        fl \in {FALSE} \cup (IF HasLink(tree0) THEN {TRUE} ELSE {}) :        \* input.follow_symlinks matters only where a link exists
+        cfg = [pats |-> pats, recursive |-> r, auto |-> a, sep |-> sep, follow |-> fl,
                out |-> [kind |-> ok, inside |-> ok \in {"top", "sub"}, path |-> IF ok \in {"top", "sub"} THEN OutSub[ok] ELSE <<>>]]
   /\ fs = tree0 /\ pc = "start" /\ stack = <<>> /\ visited = <<>> /\ scanned = {} /\ effects = <<>> /\ outcome = ""
   /\ hist = <<>>
@@ -158,7 +168,7 @@ VisitDir ==
      \E ldirs \in Perms(Dir(fs, D).dirs), lfiles \in Perms(Dir(fs, D).files) :
        LET r == VisitResult(fs, cfg, D, ldirs, lfiles)
            hasOut == cfg.out.kind # "none"
-           sub == r.sub
+           sub == r.walk
            fs1 == IF r.proceed /\ cfg.out.inside
                   THEN LET g == Mkdirs(fs, OutRel(cfg, D))
                            g1 == AddFile(g, OutRel(cfg, D), IndexRst)
@@ -262,7 +272,7 @@ C18_SortedPerDirectory ==
 \* ---------------------------------------------------------------- behaviours for replay
 Emit == Done => PrintT(<<"BEH", ToJson([tree |-> {[path |-> Names(p), dirs |-> {x.n : x \in tree0[p].dirs},
                                                    files |-> {x.n : x \in tree0[p].files}] : p \in DOMAIN tree0},
-                                        cfg |-> [recursive |-> cfg.recursive, auto |-> cfg.auto, sep |-> cfg.sep,
+                                        cfg |-> [recursive |-> cfg.recursive, auto |-> cfg.auto, sep |-> cfg.sep, follow |-> cfg.follow,
                                                  out |-> [kind |-> cfg.out.kind, path |-> Names(cfg.out.path)],
                                                  pats |-> {p.txt : p \in cfg.pats}],
                                         indom |-> InDomain(tree0, cfg), outcome |-> outcome, listings |-> hist,
